@@ -81,7 +81,7 @@ SPECS = {
     "C02": S(profiles=[("singleton", 0.7), ("core-mix", 0.3)], projection="PExecSet",
              chk="fun c obs => chk_C02 (cs_hist c) obs",
              rule="non-trivial: some function is demanded by at least two Invokes or through two paths (>=2 Invokes and >=1 execution)"),
-    "C03": S(profiles=[("bystanders", 0.7), ("decor", 0.3)], projection="PExecSet",
+    "C03": S(profiles=[("bystanders", 0.5), ("decor", 0.25), ("groups", 0.25)], projection="PExecSet",
              chk="fun c obs => chk_C03 (cs_hist c) obs ++ chk_prov (cs_beh c) (cs_hist c) obs",
              rule="non-trivial: at least one accepted constructor is never executed while some Invoke succeeds"),
     "C04": S(profiles=[("gaps", 1.0)], projection="PExec",
